@@ -502,6 +502,7 @@ def fam_resume(rnd, n):
     res = []
     for i in range(n):
         maxage = rnd.choice([1800, 1800, 600, 60])
+        zero = i % 9 == 8      # WithMaxLastUpdate(0): whatever is Running is older than the maximum
         members = []
         for _ in range(rnd.choice([2, 3, 3, 4])):
             kind = rnd.choice(["plain", "fail", "checks", "cont", "conc"])
@@ -521,7 +522,7 @@ def fam_resume(rnd, n):
             ages = rnd.choice([0, maxage - 2, maxage - 1, maxage + 1, maxage + 2, maxage * 3, 5])
             members.append({"shape": sh, "out": out, "kpct": kpct, "ages": ages, "agemode": rnd.choice(["", "", "", "start", "end"])})
         res.append({"kind": "resume", "shape": members[0]["shape"], "mode": "free", "out": {}, "members": members, "norecovery": rnd.random() < 0.25,
-                    "maxages": maxage, "tag": "resume", "latmax": 100, "contdelay": 300})
+                    "maxages": -1 if zero else maxage, "tag": "resume-zero" if zero else "resume", "latmax": 100, "contdelay": 300})
     return res
 
 
